@@ -123,6 +123,10 @@ def hostile_json_ud(rng, u):
     from vf import gen
     docs = [b"[" * 50000 + b"]" * 50000, b"{\"a\":" * 20000 + b"1" + b"}" * 20000, b"1" * 5000, b"-" + b"9" * 4400,
             b"{\"a\": NaN}", b"{\"a\": Infinity, \"b\": -Infinity}", b"1e999", b"\"\\ud800\"", b"{\"k\": \"\\udc00x\"}",
-            b"\xff\xfe{}", b"{} trailing", b"", b"\0\0\0\0", b"nul", b"{\"Section Version\": \"clobber\"}"]
+            b"\xff\xfe{}", b"{} trailing", b"", b"\0\0\0\0", b"nul", b"{\"Section Version\": \"clobber\"}",
+            # long runs of characters that the printer escapes (\uXXXX, \\, \"), as list elements, values and keys
+            ("[\"" + "\u00e9" * 60 + "\", \"x\"]").encode(), ("{\"k\": [\"" + "\u20ac" * 200 + "\"]}").encode(),
+            ("{\"" + "\u00fc" * 48 + "\": \"" + "\u00e9" * 48 + "\"}").encode(), ("[\"" + "\\\\" * 64 + "\"]").encode(),
+            ("[\"" + "\\\"" * 64 + "\"]").encode(), ("[\"" + "\\u00e9" * 40 + "\"]").encode(), ("[\"" + "a\\\\u" * 40 + "\"]").encode()]
     for d in docs:
         yield d if d else b"\0"
